@@ -244,7 +244,7 @@ impl Sub for Dist {
         "DNA width 1..8 (quick) / ..16 (thorough, meet-in-the-middle), protein 1..3 / ..4, plus wider matrices for the structural parts; library-made and arbitrary finite cells (|cell| <= 32, rows of equal cells, finite or -inf wildcard column) x uniform / non-uniform / zero-entry / non-zero-wildcard backgrounds; 8..20 queries per matrix (attainable scores, midpoints, below min, above max, arbitrary) and up to 12 p-values; oracle: sf in [0,1] non-increasing, P(S>=s+d) <= pvalue(s) <= P(S>=s-d) against the exact enumeration with d=(M/2+1)/scale, pvalue monotone, pvalue(score(p)) <= p; non-trivial = exact oracle available, M >= 2, >= 3 distinct attainable scores and a query strictly inside (min, max)"
     }
     fn cases(&self, tier: Tier) -> u64 {
-        tier.pick(6_000, 150_000)
+        tier.pick(10_000, 300_000)
     }
     fn strategy(&self, tier: Tier) -> BoxedStrategy<Case> {
         strategy(tier)
